@@ -791,7 +791,13 @@ fn parse_content(value: &RawValue) -> Result<String, nom::Err<nom::error::Error<
 
 pub(crate) fn parse_rules(text: &str) -> IResult<&str, Vec<Declaration>> {
     separated_list0(
-        tuple((tag(";"), skip_optional_whitespace)),
+        // Whitespace may come before a semicolon, and empty declarations
+        // (";;") are allowed.
+        many1(tuple((
+            skip_optional_whitespace,
+            tag(";"),
+            skip_optional_whitespace,
+        ))),
         parse_declaration,
     )(text)
     .map(|(rest, v)| (rest, v.into_iter().flatten().collect()))
@@ -976,7 +982,7 @@ fn parse_ruleset(text: &str) -> IResult<&str, RuleSet> {
         skip_optional_whitespace,
         parse_rules,
         skip_optional_whitespace,
-        opt(tag(";")),
+        many0(tuple((tag(";"), skip_optional_whitespace))),
         skip_optional_whitespace,
         tag("}"),
         skip_optional_whitespace,
